@@ -22,24 +22,26 @@ LEVEL_TEXT = ("Proof (F/M): for every byte string the models of the table footer
               "journal record scanner incl. the data-loss resynchronisation, and of the manifest parser never panic (unconditional; the models mirror "
               "every bounds check the repaired Go code performs and none it does not, incl. Go's capacity rule for re-slicing); a successful get returns "
               "exactly the checksummed record the index designates for the address. REFUTED and kept as open known findings: content is never compared "
-              "with the address (records exchanged under valid checksums; iteration labels chunks with the unchecksummed index's address). hashAt remains unguarded.")
+              "with the address (records exchanged under valid checksums; iteration labels chunks with the unchecksummed index's address).")
 LEVEL_NOTE = ("Trusted: Coq kernel, translator constants, Go harness + Python glue. Modelled, not verified: snappy decode (opaque after the checksum), "
               "hash.Of (the harness reports content-hash = address), errgroup goroutines of getMany (model: lookup phase + the argument that batch buffers cover "
               "their members), os.File.ReadAt short-read semantics. Archives and store-level opens are not modelled (see report).")
 THEOREMS = ["no_panic_open_table", "no_panic_table", "no_panic_journal_scan", "no_panic_manifest", "oracle_model", "no_misread_get",
-            "no_misread_refuted", "iterate_mislabel_refuted", "hash_at_refuted"]
-REFUTED = ["no_misread_refuted", "iterate_mislabel_refuted", "hash_at_refuted"]
+            "no_misread_refuted", "iterate_mislabel_refuted"]
+REFUTED = ["no_misread_refuted", "iterate_mislabel_refuted"]
 RULE = ("files written by the real writers (table files of 1-6 chunks, journals of 2-7 records, v5/v4 manifests of 0-3 specs) with: every single-byte "
         "corruption of index+footer (thorough: 3 values per position; quick: one rotating value), sampled data-area flips, every/sampled truncation, "
         "field-targeted edits (counts, lengths, ordinals, prefixes, magic), record swaps with valid checksums, appended tails, manifest count disagreement; "
         "non-trivial = the mutated file differs from the pristine one or is the pristine control; distinct by mutation list + base")
-ASSUMPTIONS = ["generated length entries stay <= 144 MiB (one 4 GiB probe in the thorough tier): the readers allocate the declared length before reading, which is slow but neither a crash nor a misread",
+ASSUMPTIONS = ["ResolveShortHash is given at most 32 base32 characters (hash.Parse in padStringAndDecode panics otherwise: caller-side precondition, not file content)",
+               "generated length entries stay <= 144 MiB (one 4 GiB probe in the thorough tier): the readers allocate the declared length before reading, which is slow but neither a crash nor a misread",
                "table files in generated cases hold at most 12 chunks (sort.Slice is then a stable insertion sort, as modelled)",
                "a span whose CRC32C validates snappy-decodes (model answers 'ok' where the implementation may answer a snappy error)",
                "journal inputs are shorter than the 10 MiB resynchronisation buffer of possibleDataLossCheck"]
 REQUIRED_TAGS = ["table", "journal", "manifest", "t-pristine", "t-open-err", "t-get-err", "t-has-err", "t-iter-err", "t-gm-err", "t-iter-mislabel",
                  "t-absent", "t-misread", "j-ok", "j-err", "j-dataloss", "j-truncated", "m-ok", "m-err",
-                 "reg:length-lt-checksum-size", "reg:ordinal-ge-count", "reg:length-gt-iterate-buffer", "reg:journal-short-field", "reg:manifest-bad-root"]
+                 "reg:length-lt-checksum-size", "reg:ordinal-ge-count", "reg:length-gt-iterate-buffer", "reg:journal-short-field", "reg:manifest-bad-root", "reg:resolve-short-hash",
+                 "resolve", "r-short-ok", "r-long-ok", "r-short-err", "r-long-err", "r-found", "r-none", "r-last-tuple-long"]
 
 # open known findings (reads never compare the content hash with the address).  The repaired findings
 # (table-index:length-lt-checksum-size, table-index:ordinal-ge-count, table-index:length-gt-iterate-buffer,
@@ -287,8 +289,49 @@ def regression_cases():
     return out
 
 
+def rcase(chunks, muts, shorts, label="", cnt=-1):
+    return {"k": "resolve", "chunks": chunks, "cnt": cnt, "muts": muts, "shorts": shorts, "label": label}
+
+
+ABSENT_SHORTS = [{"raw": list(b"v")}, {"raw": list(b"0")}, {"raw": list(b"vvvvvvvvvvvvvvv")}, {"raw": list(b"0000000000000")}, {"raw": list(b"g5")}, {"raw": []},
+                 {"raw": list(b"0123456789abcdefghijklmnopqrstuv")}]
+
+
+def resolve_cases(rng, tier):
+    """ResolveShortHash: short (< 13) and long (>= 13) prefixes of present hashes incl. the LAST index tuple, absent prefixes, corrupt ordinals."""
+    out = []
+    quick = tier == "quick"
+    for c in ((1, 3) if quick else (1, 2, 3, 4, 6)):
+        chunks = table_base(rng, c)
+        isz = 28 * c + 20
+        present = []
+        for j in range(c):
+            for n in ((1, 5, 12, 13, 20, 32) if not quick else (rng.choice([1, 2, 4, 12]), rng.choice([13, 20, 32]))):
+                present.append({"tuple": j, "n": n})
+        present.append({"tuple": -1, "n": 13})
+        present.append({"tuple": -1, "n": 14})
+        shorts = present + (ABSENT_SHORTS if not quick else rng.sample(ABSENT_SHORTS, 4))
+        out.append(rcase(chunks, [], shorts, "resolve-pristine"))
+        for i in range(c):
+            for v in (c, c + 1, 0xFFFFFFFF, (i + 1) % c):
+                out.append(rcase(chunks, [{"op": "set", "pos": -isz + 12 * i + 8, "bytes": be32(v)}], shorts, "resolve-ordinal"))
+        out.append(rcase(chunks, [{"op": "set", "pos": -isz + 12 * i + 8, "bytes": be32(c + 5)} for i in range(c)], shorts, "resolve-ordinal"))
+        for _ in range(4 if quick else 40):
+            out.append(rcase(chunks, [{"op": "xor", "pos": -rng.randint(21, isz), "v": rng.choice(FLIPS)}], shorts, "resolve-flip"))
+        out.append(rcase(chunks, [{"op": "set", "pos": -isz, "bytes": [255] * 8}], shorts, "resolve-prefix"))
+        out.append(rcase(chunks, [], shorts, "resolve-count", cnt=c + 1))
+    return out
+
+
 def gen_cases(rng, tier):
-    return regression_cases() + gen_cases_random(rng, tier)
+    reg = regression_cases()
+    # fixed:a794b79 — ordinal > count reached hashAt; a >= 13 character prefix of the last tuple scanned past count on a valid file
+    r1 = rcase(REG_CHUNKS, [{"op": "set", "pos": -104 + 12 * i + 8, "bytes": be32(9)} for i in range(3)],
+               [{"raw": list(b"1")}, {"tuple": 0, "n": 13}, {"tuple": 1, "n": 3}], "regression")
+    r2 = rcase(REG_CHUNKS, [], [{"tuple": -1, "n": 13}, {"tuple": -1, "n": 32}, {"tuple": 0, "n": 13}], "regression")
+    for r in (r1, r2):
+        r["reg"] = "resolve-short-hash"
+    return reg + [r1, r2] + gen_cases_random(rng, tier) + resolve_cases(rng, tier)
 
 
 def gen_cases_random(rng, tier):
@@ -314,15 +357,29 @@ def _obs(open_=0, res="[]", it=4, itn=0, gm=4, cl=0, recs="[]", off=0, man="None
             % (open_, res, it, itn, gm, cl, recs, off, man))
 
 
+def b32decode(sx):
+    v = 0
+    for ch in sx:
+        v = v * 32 + B32.index(ord(ch))
+    return v.to_bytes(20, "big")
+
+
 def coq_case(case, out):
     o = out.get("obs")
     k = case["k"]
     crashed = o is None or "crash" in o
     if crashed:
         # whole-worker crash / harness failure: an observation no model agrees with and the oracle rejects
-        if k == "table":
+        if k in ("table", "resolve"):
             return "(ITable [] 0 [], %s)" % _obs(open_=2)
         return "(%s [], %s)" % ("IJournal" if k == "journal" else "IManifest", _obs(cl=2))
+    if k == "resolve":
+        inp = "IResolve %s %d %s" % (cq_bytes(o["bytes"]), o["cnt"], cq_list(cq_bytes(x) for x in (o["shorts"] or [])))
+        op = {"ok": 0, "err": 1, "panic": 2}[o["open"]]
+        recs = cq_list("(0, %d, %s, %d)" % ({"ok": 0, "err": 1, "panic": 2}[r["code"]],
+                                            cq_bytes(b"".join(b32decode(x) for x in (r["res"] or []))), len(r["res"] or []))
+                       for r in (o["resolve"] or []))
+        return "(%s, %s)" % (inp, _obs(open_=op, recs=recs))
     if k == "table":
         inp = "ITable %s %d %s" % (cq_bytes(o["bytes"]), o["cnt"], cq_list(cq_bytes(a) for a in o["addrs"]))
         op = {"ok": 0, "err": 1, "panic": 2}[o["open"]]
@@ -440,6 +497,17 @@ def classify(case, out):
         for kind, msg in evidence(case, out):
             key = attribute(case, out, kind, msg)
             t.append("finding:" + (key or "UNATTRIBUTED"))
+    elif k == "resolve":
+        t.append("r-open-" + o["open"])
+        for spec, r in zip(case["shorts"], o.get("resolve") or []):
+            n = len(spec["raw"]) if spec.get("raw") is not None else spec["n"]
+            t.append("r-%s-%s" % ("long" if n >= 13 else "short", r["code"]))
+            if r["code"] == "ok":
+                t.append("r-found" if r["res"] else "r-none")
+            if spec.get("raw") is None and spec["tuple"] == -1 and n >= 13 and not case["muts"] and r["code"] == "ok" and r["res"]:
+                t.append("r-last-tuple-long")
+        for kind, msg in evidence(case, out):
+            t.append("finding:" + (attribute(case, out, kind, msg) or "UNATTRIBUTED"))
     elif k == "journal":
         t.append("j-" + o["class"])
         if o["class"] == "ok" and case["muts"] and case["muts"][0]["op"] == "trunc":
